@@ -182,6 +182,13 @@ class _SessionEntry:
     expires_at: float
     principal_key: str
     lock: threading.RLock
+    evicted: bool = False
+    """Set (under the registry lock) once the entry has left the registry.
+
+    A request that looked the entry up and then waited for ``lock`` re-checks
+    this after acquiring it, so it never dispatches against a session that
+    was closed while it waited.
+    """
 
 
 class _SessionRegistry:
@@ -261,25 +268,31 @@ class _SessionRegistry:
         forged token could not have valid AAD in the first place.
         """
         now = time.time()
+        expired: _SessionEntry | None = None
         with self._lock:
             entry = self._entries.get(session_id)
             if entry is None:
                 return None
             if entry.expires_at < now:
                 del self._entries[session_id]
-                self._close_state_suppressed(entry.state)
+                entry.evicted = True
+                expired = entry
+            elif entry.principal_key != principal_key:
                 return None
-            if entry.principal_key != principal_key:
-                return None
+        if expired is not None:
+            self._close_entry(expired)
+            return None
         return entry
 
     def close(self, session_id: bytes) -> bool:
         """Remove a session and invoke ``state.close()``. Returns ``True`` on hit."""
         with self._lock:
             entry = self._entries.pop(session_id, None)
+            if entry is not None:
+                entry.evicted = True
         if entry is None:
             return False
-        self._close_state_suppressed(entry.state)
+        self._close_entry(entry)
         return True
 
     def drain_expired(self, now: float | None = None) -> int:
@@ -289,8 +302,10 @@ class _SessionRegistry:
         with self._lock:
             expired_sids = [sid for sid, e in self._entries.items() if e.expires_at < now]
             expired = [self._entries.pop(sid) for sid in expired_sids]
+            for entry in expired:
+                entry.evicted = True
         for entry in expired:
-            self._close_state_suppressed(entry.state)
+            self._close_entry(entry)
         return len(expired)
 
     def shutdown(self) -> None:
@@ -303,8 +318,10 @@ class _SessionRegistry:
         with self._lock:
             entries = list(self._entries.values())
             self._entries.clear()
+            for entry in entries:
+                entry.evicted = True
         for entry in entries:
-            self._close_state_suppressed(entry.state)
+            self._close_entry(entry)
 
     def __len__(self) -> int:
         with self._lock:
@@ -313,6 +330,17 @@ class _SessionRegistry:
     def __iter__(self) -> Iterator[bytes]:
         with self._lock:
             return iter(list(self._entries.keys()))
+
+    def _close_entry(self, entry: _SessionEntry) -> None:
+        """Run the close hook of an entry that has already left the registry.
+
+        Takes the per-session lock (never while holding the registry lock) so
+        the hook waits for an in-flight dispatch on that session to finish.
+        The lock is re-entrant, so a method closing its own session does not
+        block on itself.
+        """
+        with entry.lock:
+            self._close_state_suppressed(entry.state)
 
     @staticmethod
     def _close_state_suppressed(state: object) -> None:
@@ -534,6 +562,17 @@ class _StickyMiddleware:
             # Released in process_response. Same-session concurrent calls
             # serialize here; different-session calls run in parallel.
             entry.lock.acquire()
+            if entry.evicted:
+                # Closed (DELETE, expiry, in-method close, shutdown) while we
+                # waited for the lock: the session is gone, do not dispatch.
+                entry.lock.release()
+                _set_error_response(
+                    resp,
+                    SessionLostError("session not found, expired, or principal mismatch"),
+                    status_code=HTTPStatus.INTERNAL_SERVER_ERROR,
+                )
+                resp.complete = True
+                return
             req.context.sticky_entry = entry
             req.context.sticky_entry_lock_acquired = True
             session_id_hex = session_id.hex()
@@ -608,13 +647,9 @@ class _StickyMiddleware:
             session_id = bytes.fromhex(sc.session_id)
         except ValueError:
             return False
-        # Release the per-session RLock before removal so process_response's
-        # release doesn't double-unlock.
-        entry = getattr(req.context, "sticky_entry", None)
-        if entry is not None and getattr(req.context, "sticky_entry_lock_acquired", False):
-            with contextlib.suppress(RuntimeError):
-                entry.lock.release()
-            req.context.sticky_entry_lock_acquired = False
+        # The per-session RLock stays held (it is re-entrant, and
+        # process_response releases it): a request waiting on it must not get
+        # in before the close hook has run.
         hit = self._registry.close(session_id)
         # Clear the contextvar so subsequent ctx.session reads return None.
         sc_token = getattr(req.context, "sticky_session_token", None)
@@ -728,7 +763,11 @@ class _SessionResource:
         # call on this session — matches the contract documented for
         # concurrent dispatch.
         with entry.lock:
-            self._registry.close(session_id)
+            hit = self._registry.close(session_id)
+        if not hit:
+            # Closed by someone else while we waited for the lock.
+            resp.status = HTTPStatus.OK
+            return
         resp.set_header(SESSION_CLOSE_HEADER, "true")
         resp.status = HTTPStatus.NO_CONTENT
 
